@@ -2091,7 +2091,11 @@ fn check_program(
     // every instruction array of the emitted module: the model's decode∘encode reproduces the text,
     // `Instruction::adjust` agrees with the generated table, and the module passes the verifier
     // specification (`emitted_modules_verified`)
-    emitted_module_case(out, &vs.a, p, &bytes, &replay);
+    {
+        let t0 = std::time::Instant::now();
+        emitted_module_case(out, &vs.a, p, &bytes, &replay);
+        out.add("mod:millis", t0.elapsed().as_millis() as u64);
+    }
     // the structs are written with exactly the fields of Generated.ModuleFields, in that order
     if p.feats.contains(&"corpus") {
         if let Some(root) = jscan(&bytes) {
@@ -2518,13 +2522,13 @@ fn stream_instrs(out: &mut Out, rng: &mut Rng, n: usize) {
             _ => continue,
         };
         // prefer an element of the wanted shape
-        let want = rng.below(3);
+        let want = rng.below(4);
         let cands: Vec<&JNode> = root
             .kids
             .iter()
             .filter(|e| match want {
                 0 => e.kind == JK::Str,
-                1 => e.kind == JK::Obj && e.kids.len() == 1 && e.kids[0].kind == JK::Obj,
+                1 | 2 => e.kind == JK::Obj && e.kids.len() == 1 && e.kids[0].kind == JK::Obj,
                 _ => e.kind == JK::Obj && e.kids.len() == 1 && e.kids[0].kind == JK::Num,
             })
             .collect();
